@@ -93,16 +93,31 @@ func mkSigner(r *mon.Run, c Case, mskb []byte, ed bool) (signer, bool) {
 
 // transcripts returns a library transcript and its reference twin.
 func transcripts(rng *rand.Rand, ctx, msg []byte, kind int) (*sr25519.SigningTranscript, *ref.Transcript, string) {
-	sc := sr25519.NewSigningContext(ctx)
+	// the context and message buffers, and the hash object, stay the caller's: they are overwritten / written to as
+	// soon as the constructor has returned; contexts and transcripts stand for what they were built from
+	scribble := func(b []byte) {
+		for i := range b {
+			b[i] ^= 0xff
+		}
+	}
+	cbuf := append(make([]byte, 0, len(ctx)+8), ctx...)
+	sc := sr25519.NewSigningContext(cbuf)
+	scribble(cbuf)
 	switch kind {
 	case 1:
 		h := sha256.New()
 		h.Write(msg)
-		return sc.NewTranscriptHash(h), ref.SrTranscriptLabelled(ctx, "sign-256", h.Sum(nil)), "hash256"
+		digest := h.Sum(nil)
+		st := sc.NewTranscriptHash(h)
+		h.Write([]byte("written after the transcript was made"))
+		return st, ref.SrTranscriptLabelled(ctx, "sign-256", digest), "hash256"
 	case 2:
 		h := sha512.New()
 		h.Write(msg)
-		return sc.NewTranscriptHash(h), ref.SrTranscriptLabelled(ctx, "sign-512", h.Sum(nil)), "hash512"
+		digest := h.Sum(nil)
+		st := sc.NewTranscriptHash(h)
+		h.Reset()
+		return st, ref.SrTranscriptLabelled(ctx, "sign-512", digest), "hash512"
 	case 3:
 		x, y := sha3.NewShake128(), sha3.NewShake128()
 		x.Write(msg)
@@ -121,7 +136,10 @@ func transcripts(rng *rand.Rand, ctx, msg []byte, kind int) (*sr25519.SigningTra
 		}
 		return sc.NewTranscriptXOF(x), ref.SrTranscriptLabelled(ctx, "sign-XoF", pre), "xof"
 	}
-	return sc.NewTranscriptBytes(msg), ref.SrTranscriptBytes(ctx, msg), "bytes"
+	mbuf := append(make([]byte, 0, len(msg)+8), msg...)
+	st := sc.NewTranscriptBytes(mbuf)
+	scribble(mbuf)
+	return st, ref.SrTranscriptBytes(ctx, msg), "bytes"
 }
 
 func verifyBytes(pkb, sigb []byte, st *sr25519.SigningTranscript) (ok bool, decodeErr bool) {
